@@ -3,7 +3,8 @@
 The property quantifies over builds with assertions enabled AND disabled, so the generic
 flow of tools/check.py (one harness variant) is replaced by `custom_main`: same steps, same
 contract, but the harness is built and run twice (ASan+UBSan+float-cast-overflow, with
--UNDEBUG and with -DNDEBUG) and both runs feed the correspondence and the oracle.
+-UNDEBUG and with -DNDEBUG) and both runs feed the correspondence and the oracle.  In the thorough tier a
+third build (-D_GLIBCXX_ASSERTIONS -D_GLIBCXX_DEBUG) re-runs the flow stages for the oracle only.
 """
 import json
 import os
@@ -23,6 +24,13 @@ BUILD_VARIANTS = {
     "c07_asserts": C.VARIANTS["san"] + ["-fsanitize=float-cast-overflow"],
     "c07_ndebug": C.VARIANTS["san_ndebug"] + ["-fsanitize=float-cast-overflow"],
 }
+# Thorough tier only: a third build with the libstdc++ assertions (`operator[]`, `front()`, `pop()` on an empty container,
+# iterator validity with _GLIBCXX_DEBUG) for the flow stages: an out-of-range `v[i]` that stays inside the allocation's slack
+# (capacity > size) is invisible to ASan.  The flags live here (a local extension of C.VARIANTS, same content-addressed cache).
+GLIBCXX_VARIANT = {
+    "c07_glibcxx": C.VARIANTS["san"] + ["-fsanitize=float-cast-overflow", "-D_GLIBCXX_ASSERTIONS", "-D_GLIBCXX_DEBUG"],
+}
+GLIBCXX_STAGES = "CFD"  # corpus + both flow generators (the quick plan's counts), no correspondence streams
 # Proofs/IncrNetTopology (used by the IncrNetModel no-fault theorems) imports the generated orientation tables
 GEN = ["OrientTables"]
 PARTIAL = [
@@ -34,35 +42,59 @@ PARTIAL = [
     "(tetris_no_fault, tetris_place_no_fault: targets up to 2^29 as placeGlobal may hand over), Circuit::pinX/YOffset "
     "(pin_offset_no_fault), IncrNetModel x/yTopology + build + any updateCellPos sequence (incrnet_no_fault, "
     "incrnet_update_no_fault), DetailedPlacement canInsert/canSwap/positionOnInsert/positionsOnSwap/insert/swap along any "
-    "accepted history (detplace_no_fault, detplace_history_no_fault), index safety + loop termination of "
-    "Transportation1d::assign (transp1d_no_fault); the checked value equals the unbounded model's value.  Each of these "
-    "cores is tied to the C++ two-sidedly: in-domain 2^22 streams (same values, never a fault) and beyond-domain streams up "
-    "to 2^31 where the checked model must predict exactly which cases UBSan/assert kill (row legalizer, subdivisions, "
-    "Tetris, IncrNetModel, DetailedPlacement; the 1-D transport by an in-domain stream on unit-supply full lines)",
-    "transp_costs_fit is PARTIAL (transp_costs_fit_partial): at every state satisfying the invariants C13's termination "
-    "proof establishes before each updateTree call, with stored costs in [0, C] and 2C <= INT_MAX (costsFromIntegers scales "
-    "to C <= INT_MAX/(4 nbSinks)), every `movingCost + sendingCost_` of updateTree and every `sendingCost_[i] + cost` of "
-    "bestSink is a representable int although the labels start at INT_MAX; not re-proved through a checked twin of the "
-    "whole run (the reduction to these states is C13's), the float side of costsFromIntegers is sanitizer-monitored, and "
-    "the tie to the C++ is C13's correspondence stream, not a C07 one",
+    "accepted history (detplace_no_fault, detplace_history_no_fault); the transportation of DensityLegalizer::reoptimize as "
+    "a whole - costsFromIntegers' fixed-point scaling (binary64 model, every result in [0, 2^29] so the double->int "
+    "conversion is defined), increaseCapacity, the complete successive-shortest-path run (int cost differences and label "
+    "sums with the INT_MAX sentinel, long long demands/capacities/allocations, every std::accumulate partial sum), "
+    "toAssignment (transp_costs_fit, transp_run_no_fault, transp_tree_sums_fit: checked = unbounded Transp.solve, and "
+    "the problem handed to solve() satisfies C13's WellFormed/costBoundOk, closing the loop with ssp_optimal); "
+    "Transportation1d balanceDemand + assign as improveX/YTransport call it - index safety, termination "
+    "(transp1d_no_fault) and every long long position/slope/prefix-sum operation (transp1d_arith_no_fault on the decidable "
+    "domain T1dDom: |u|,|v| <= 2^60-1, totals <= 2^61-1, any number of sources; transp1d_scaled_no_fault: the instances "
+    "built by the 1e8/width scaling from targets within 2^29 lie in it, |u|,|v| <= 2^56).  The checked value always equals "
+    "the unbounded model's value.  Each core is tied to the C++ two-sidedly: in-domain 2^22 streams (same values, never a "
+    "fault) and beyond-domain streams up to 2^31 (2^62 for the long long quantities) where the checked model must predict "
+    "exactly which cases UBSan/assert kill (row legalizer, subdivisions, Tetris, IncrNetModel, DetailedPlacement, general "
+    "transportation G/H, scaled 1-D transportation V/W; stage U keeps the unit-supply full-line shapes)",
+    "transp_costs_fit is FULL for the integer run and for costsFromIntegers; what remains conditional on the float side: "
+    "(a) that no float intermediate of DensityLegalizer::distance overflows to inf is proved for all six cost models "
+    "(transp_float_costs_finite: bins/targets within 2^30, penalty factor in [0,1] resp. 0 for the squared models), but "
+    "the rational model of sqrtf (L2) is only proved bounded (f32sqrt q <= 8B for q <= B^2); that it is correctly rounded "
+    "is validated by execution (10^4 cases against libm + stream G), so for L2 the *values* of the theorem are those of the "
+    "model, tied to the C++ by the stream; (b) the float model itself (IEEE-754 "
+    "round-to-nearest-even on exact rationals for every float/double operation, std::round, sqrtf; x86-64 baseline: no FMA "
+    "contraction, FLT_EVAL_METHOD 0) is hand-written and tied to the C++ by stream G, which compares single distances bit "
+    "for bit (read from the real DensityLegalizer::allDistances), every fixed-point cost and the assignment; (c) the "
+    "quantity domain is total demand and total capacity <= 2^61 and at most 2^31 bins (the C07 domain - cell areas < 2^31, "
+    "placement area < 2^46 - stays below unless a circuit has more than 2^30 cells); (d) the glue of reoptimize around the "
+    "transportation (collecting the cells, setBinCells) and rebisect/findConstrainedSplitPos are sanitizer-monitored only",
+    "signed stored costs are outside the C07 domain of the solver: C13's costBoundOk (3|cost| < INT_MAX) admits them, but "
+    "for |cost| > INT_MAX/4 updateTree's `movingCost(i, bestVisit) + sendingCost_[bestVisit]` overflows int "
+    "(transp_signed_costs_overflow; stream H family 2 predicts the UBSan kills, transportation.cpp:502; smallest instance: "
+    "capacities [1,1,1], demands [1,1], costs [[-c,-c],[-c,c],[c,c]], c = 715827882).  Only reachable through the public "
+    "int-cost constructor of TransportationProblem, never from a placement entry point (costsFromIntegers yields [0, 2^29])",
     "NOT proved, monitored by the sanitized harness only (two builds, ASan+UBSan+float-cast-overflow, forked child per "
     "case with timeout): every other part of placeGlobal/legalize/placeDetailed - Eigen (conjugate gradients), "
-    "boost::polygon (Row::freespace), lemon (network simplex), iostream, all float->int conversions (DensityLegalizer "
-    "targets, costsFromIntegers fixed-point scaling, exportPlacement, computeCellOrder keys), the density legalizer and the "
-    "rest of the general transportation solver (long long quantities, queues), signed overflow of the long long "
-    "position/slope arithmetic of Transportation1d (only its index safety and termination are proved), the search loops of "
-    "place_detailed.cpp (swap / shift / reordering candidates, RowReordering) around the modelled DetailedPlacement "
-    "primitives, the DetailedPlacement constructor as a whole (only its two arithmetic leaves locate/linkRow have checked "
-    "twins), AbacusLegalizer beyond its cost arithmetic, Legalizer::run glue, and the glue between the modelled cores",
+    "boost::polygon (Row::freespace), lemon (network simplex), iostream, the remaining float->int conversions "
+    "(DensityLegalizer spreading/export, exportPlacement, computeCellOrder keys; the float->long long conversions of "
+    "improveX/YTransport are in range by the scaling model of transp1d_scaled_no_fault, which has no stream of its own), "
+    "the density legalizer outside the two transportation solvers (hierarchy, bisection, bin bookkeeping), the search "
+    "loops of place_detailed.cpp (swap / shift / reordering candidates, RowReordering) around the modelled "
+    "DetailedPlacement primitives, the DetailedPlacement constructor as a whole (only its two arithmetic leaves "
+    "locate/linkRow have checked twins), AbacusLegalizer beyond its cost arithmetic, Legalizer::run glue, and the glue "
+    "between the modelled cores",
     "tetris_no_fault assumes rows of positive height: with rowHeight() <= 0 getPossibleIntervals/instanciateCell recurse "
     "without bound in the C++ (Circuit::check rejects such rows; the model's fuel would hide it)",
-    "out-of-bounds accesses are only observable through ASan redzones; std::vector::operator[] inside an allocation's "
-    "slack is not detected (no _GLIBCXX_ASSERTIONS build)",
+    "out-of-bounds accesses are observable through ASan redzones in the two standard builds; std::vector::operator[] inside "
+    "an allocation's slack is only detected in the third build of the thorough tier (-D_GLIBCXX_ASSERTIONS "
+    "-D_GLIBCXX_DEBUG + ASan/UBSan, corpus and both flow generators at the quick plan's counts); the quick tier does not "
+    "run it",
     "termination outside the modelled cores is observed as 'no case exceeds the timeout (re-run once with 8x the budget "
     "before being reported)', bounded in the code by maxNbSteps, nbPasses, CG maxIterations; not proved.  Known finding "
     "KF-C07-1: TransportationSuccessiveShortestPath (general rough-legalization transport) moves one demand unit per "
     "augmentation on some instances, so placeGlobal's running time grows with the cell areas (12 min for 9 cells at 2^22 "
-    "without sanitizers); it terminates; classified by the child's stack when the budget expires",
+    "without sanitizers); it terminates (C13 ssp_terminates; the checked run of transp_costs_fit inherits its fuel "
+    "argument); classified by the child's stack when the budget expires",
     "rowleg theorems assume at most 2^15 cells per row segment (coarse bound on the 64-bit cost accumulator: 2^16 queue "
     "entries x 2^46 per term); longer rows are exercised by the 2^22 stream only; incrnet theorems assume fewer than 2^31 "
     "nets (int net indices)",
@@ -82,7 +114,15 @@ ASSUMPTIONS = [
     "the checked models carry the C++ static type of every sub-expression by hand; they are tied to the code by a "
     "two-sided differential: in-domain streams (never a fault, same values) and beyond-domain streams where the model "
     "must predict exactly which cases UBSan/assert kill",
-    "std::priority_queue modelled as a sorted list (as C12)",
+    "std::priority_queue modelled as a sorted list (as C12); in the general transportation exactly as libstdc++ 12 "
+    "implements it (C13's model)",
+    "float / double arithmetic: IEEE-754 binary32 / binary64 round-to-nearest-even, evaluated in the declared type "
+    "(x86-64 SSE, FLT_EVAL_METHOD 0, no FMA contraction), std::round half away from zero, sqrtf correctly rounded; a "
+    "non-finite float cost is reported at the operation that overflows (it always dies in costsFromIntegers' double->int "
+    "conversion: inf makes the factor 0 and inf*0 = NaN; NaN stays NaN)",
+    "the checked twins of loop-free stretches compute the unbounded step and then check its typed intermediates: ok/fault "
+    "status and values are those of an operation-by-operation evaluation, the fault named need not be the first in "
+    "program order",
     "the DetailedPlacement streams build the state with the unbounded model of the constructor (the harness only hands over "
     "legal placements, whose constructor sums `x + width <= row.maxX` cannot overflow) and run the checked queries/moves on it",
     "TetrisLegalizer targets up to 2^29: the bound fixes/c07-global-out-of-range-placement.diff (2^28 before blending with "
@@ -90,18 +130,20 @@ ASSUMPTIONS = [
 ]
 LEVEL_TEXT = ("Lean 4 no-fault theorems over checked (typed-arithmetic) models of the integer cores (row legalizer, Abacus cost, "
               "Tetris legalizer, computeSubdivisions, freespace rectangles, pin offsets, IncrNetModel, DetailedPlacement "
-              "primitives; index safety of the 1-D transportation), each tied to the C++ by correspondence streams at 2^22 "
-              "magnitude and by beyond-domain streams where the model predicts the sanitizer kills; everything else in the "
-              "three entry points (floating point, Eigen/boost/lemon, density legalizer, search loops, glue) is monitored by an "
-              "end-to-end fault oracle (forked child per case, ASan+UBSan+float-cast-overflow, assertion-enabled and NDEBUG "
-              "builds) over classic, 2^22-scaled, unit-grid, dense-grid and tiny circuits")
+              "primitives; the whole transportation of the rough legalizer: float cost scaling to fixed point, increaseCapacity, "
+              "the successive-shortest-path run, and the 1-D transportation with its 1e8/width scaling), each tied to the C++ by "
+              "correspondence streams at 2^22 magnitude and by beyond-domain streams where the model predicts the sanitizer kills; "
+              "everything else in the three entry points (the other floating point code, Eigen/boost/lemon, the density "
+              "legalizer's hierarchy, search loops, glue) is monitored by an end-to-end fault oracle (forked child per case, "
+              "ASan+UBSan+float-cast-overflow, assertion-enabled and NDEBUG builds; thorough tier: a third build with the "
+              "libstdc++ container assertions) over classic, 2^22-scaled, unit-grid, dense-grid and tiny circuits")
 LEVEL_NOTE = ("Trusted: Lean kernel (propext/Classical.choice/Quot.sound), hand-written checked models (differential tie), "
               "the sanitizers as the observer of undefined behaviour outside the modelled cores.")
 TECHNIQUE = ("Lean 4 proof (checked arithmetic = unbounded model on the domain, domain invariants preserved) + two-sided "
              "differential streams + sanitizer fault oracle on two builds")
 
 
-def _run_variant(exe, variant, tier, seed, outdir, replay):
+def _run_variant(exe, variant, tier, seed, outdir, replay, stages=None):
     shutil.rmtree(outdir, ignore_errors=True)
     os.makedirs(outdir)
     args = [exe, "--seed", str(seed), "--tier", tier, "--out", outdir, "--corpus", os.path.join(C.VERIF, "corpus", PROP)]
@@ -110,6 +152,8 @@ def _run_variant(exe, variant, tier, seed, outdir, replay):
     tmo = {"quick": 1800, "search": 3600}.get(tier, 6 * 3600)
     env = dict(C.SAN_ENV)
     env.setdefault("VERIF_JOBS", os.environ.get("VERIF_JOBS", str(max(2, (C.NCPU - 2) // 2))))
+    if stages:
+        env["C07_STAGES"] = stages
     rc, out = C.sh(args, env=env, timeout=tmo)
     return rc, out
 
@@ -137,7 +181,7 @@ def _oracle(outdir):
 def custom_main(a, seed):
     tier = a.tier
     t0 = time.time()
-    for k, v in BUILD_VARIANTS.items():
+    for k, v in list(BUILD_VARIANTS.items()) + list(GLIBCXX_VARIANT.items()):
         C.VARIANTS[k] = v
     problems, notes = [], []
     gen_info = {}
@@ -250,6 +294,42 @@ def custom_main(a, seed):
             else:
                 oracle_fails.append(f)
 
+    # 5b. thorough tier: the flow stages once more in the libstdc++-assertions build (oracle only)
+    glibcxx_info = None
+    if tier == "thorough" and not a.replay:
+        gv = next(iter(GLIBCXX_VARIANT))
+        try:
+            gexe = C.build_harness("h_" + PROP, gv)
+        except RuntimeError as e:
+            gexe = None
+            notes.append("libstdc++-assertions build (-D_GLIBCXX_ASSERTIONS -D_GLIBCXX_DEBUG) does not build/link: %s" % str(e)[-400:])
+        if gexe:
+            god = os.path.join(base + "-glibcxx", gv)
+            rc, hout = _run_variant(gexe, gv, "quick", seed, god, None, stages=GLIBCXX_STAGES)
+            if rc != 0:
+                problems.append({"kind": "harness-crash", "detail": "%s exit %d\n%s" % (gv, rc, hout[-3000:])})
+            gst = {}
+            try:
+                gst = json.load(open(os.path.join(god, "stats.json")))
+                stats_all[gv] = gst
+            except Exception as e:
+                problems.append({"kind": "harness-crash", "detail": "%s bad stats.json: %s" % (gv, e)})
+            nfail = 0
+            for f in _oracle(god):
+                f["variant"] = gv
+                fid = f.get("kf")
+                if fid and fid in open_kf:
+                    kf_hits[fid] = kf_hits.get(fid, 0) + 1
+                else:
+                    oracle_fails.append(f)
+                    nfail += 1
+            glibcxx_info = {"flags": GLIBCXX_VARIANT[gv], "stages": GLIBCXX_STAGES, "flow_cases": int(gst.get("evaluations", 0)),
+                            "failures": nfail}
+            notes.append("libstdc++-assertions build (%s): %d flow cases, %d failures" %
+                         (" ".join(GLIBCXX_VARIANT[gv][-2:]), glibcxx_info["flow_cases"], nfail))
+            if not a.keep:
+                shutil.rmtree(base + "-glibcxx", ignore_errors=True)
+
     for fid, f in open_kf.items():
         print("KNOWN-FINDING: property=%s %s: %s (hits this run: %d)" % (PROP, fid, f["what"], kf_hits.get(fid, 0)))
 
@@ -308,6 +388,7 @@ def custom_main(a, seed):
         "timing": {"driver_build_s": round(t_drv, 1), "theorem_build_s": round(t_thm, 1)},
         "notes": notes + sum([st.get("notes", []) for st in stats_all.values()], []),
         "builds": {v: BUILD_VARIANTS[v] for v in BUILD_VARIANTS},
+        "glibcxx_assertions_build": glibcxx_info or "thorough tier only",
     }
     if not a.replay:
         C.write_evidence(PROP, tier if tier in ("quick", "thorough") else "quick", seed, cov, ASSUMPTIONS, wall,
